@@ -185,8 +185,11 @@ def gen_scenarios(tier, seed, want_steps=False):
             state_dependent=(i % 3 == 0),
             nsteps=(rng.randint(0, 4) if (want_steps or i % 4 == 0) else 0)))
     # degenerate composites: no process at all, and only quiet processes
-    out.append({'procs': {}, 'order': [], 'calls': [[2, False], [3, True]],
-                'emit_step': 1, 'init': {}})
+    # (an engine cannot be built from empty dictionaries: the process-free
+    #  composite holds one step)
+    out.append({'procs': {}, 'order': [],
+                'steps': {'s1': {'vars': ['s1'], 'deps': []}}, 'step_order': ['s1'],
+                'calls': [[2, False], [3, True]], 'emit_step': 1, 'init': {}})
     out.append({'procs': {'p1': {'vars': ['p1'], 'writes': {}, 'ts': [1], 'cond': [False]}},
                 'order': ['p1'], 'calls': [[2, True], [2, False], [1, True]],
                 'emit_step': 1, 'init': {}})
